@@ -28,8 +28,30 @@ def sh(cmd, cwd=None, env=None, timeout=None):
     return p.returncode, p.stdout
 
 
+def repo_digest(target):
+    """content hash of everything of the rubato checkout that goes into the build"""
+    h = hashlib.sha256()
+    files = []
+    for root, dirs, names in os.walk(os.path.join(target, "src")):
+        dirs.sort()
+        files += [os.path.join(root, n) for n in sorted(names)]
+    files += [os.path.join(target, n) for n in ("Cargo.toml", "build.rs")]
+    for f in files:
+        if os.path.isfile(f):
+            h.update(os.path.relpath(f, target).encode())
+            with open(f, "rb") as fh:
+                h.update(fh.read())
+    return h.hexdigest()
+
+
 def build_harness():
-    """Rebuild the driver against /repo's current working tree (path dependency)."""
+    """Rebuild the driver against /repo's current working tree (path dependency).
+
+    cargo decides by modification times whether the rubato sources changed.  That is not enough here:
+    the dependency path is the symlink .repo-link (switched between /repo and scratch checkouts by
+    VERIF_REPO), and a tree can be changed or restored with old time stamps.  A stamp next to the build
+    output records which checkout and which CONTENT the driver was built from; when it differs, the rubato
+    package is cleaned first, so the driver never contains code other than the current working tree's."""
     env = {"CARGO_NET_OFFLINE": "true"}
     # the harness depends on ../.repo-link: /repo unless VERIF_REPO names another checkout (used for
     # long background runs on a frozen copy; the registered checks always use /repo)
@@ -41,13 +63,29 @@ def build_harness():
         except OSError:
             pass
         os.symlink(target, link)
+    tdir = "target-cov" if COVERAGE else "target"
     cmd = ["cargo", "build", "--offline", "--profile", "verif", "--bins"]
+    clean = ["cargo", "clean", "--offline", "--profile", "verif", "-p", "rubato"]
     if COVERAGE:
-        cmd = ["cargo", "+nightly", "build", "--offline", "--profile", "verif", "--bins", "--target-dir", "target-cov"]
+        cmd = ["cargo", "+nightly", "build", "--offline", "--profile", "verif", "--bins", "--target-dir", tdir]
+        clean = ["cargo", "+nightly", "clean", "--offline", "--profile", "verif", "-p", "rubato", "--target-dir", tdir]
         env["RUSTFLAGS"] = "-C instrument-coverage"
+    stamp = os.path.join(HARNESS, tdir, ".repo-stamp")
+    want = "%s %s" % (os.path.realpath(target), repo_digest(target))
+    have = open(stamp).read().strip() if os.path.exists(stamp) else ""
+    if have != want and os.path.isdir(os.path.join(HARNESS, tdir)):
+        try:
+            os.remove(stamp)
+        except OSError:
+            pass
+        rc, out = sh(clean, cwd=HARNESS, env=env, timeout=600)
+        if rc != 0:
+            shutil.rmtree(os.path.join(HARNESS, tdir, "verif"), ignore_errors=True)
     rc, out = sh(cmd, cwd=HARNESS, env=env, timeout=1800)
     if rc != 0:
         raise ToolError("harness build failed:\n" + out[-4000:])
+    with open(stamp, "w") as f:
+        f.write(want + "\n")
     return DRIVER
 
 
